@@ -103,6 +103,9 @@ FIELD_TEMPLATES = [
     ("DateTime", "DD.MM.YY hh:mm", "", "31.12.99 23:59", 14),
     ("Pattern", "A*z", "", "Abcz", 6),
     ("RegEx", "[a-c]+[0-9]?", "", "abc1", 6),
+    # rules full of characters that are item delimiters elsewhere (a CID stored as text is comma separated, whatever its cells contain)
+    ("RegEx", "^(AT|BE|CH|DE|DK|ES|FI|FR|GB|IT|NL|NO|PL|PT|SE|SK)$", "", "DE", 2),
+    ("Choice", "'a;b', 'c;d', 'e;f;g;h;i;j;k;l;m'", "", "a;b", 17),
     ("Decimal", "0...999.99", "", "12.50", 7),
     ("Decimal", "", "", "3.14", 7),
 ]
